@@ -20,7 +20,7 @@ def jobs(tier):
         clients = [["start", "enq0", "join0", "stop"], ["open0"]]
         for k in (1, 2):
             base = {"max": mx, "min": mn, "tasks": ["gate0"], "clients": clients, "props": ["join", "exactly_once", "nodeadlock"],
-                    "join_covers": {"join0": [0]}, "join_finding": JOIN_FINDING, "window_at": k, "twin_prog": "progress"}
+                    "join_covers": {"join0": [0]}, "join_finding": JOIN_FINDING, "window_at": k, "twin_prog": "progress", "hold": [1]}
             out.append((dict(base, name="c11-join-running-max{0}min{1}-op{2}".format(mx, mn, k)), full))
         # join() with instantaneous tasks, then stop
         clients = [["start", "enq0", "enq1", "join0", "stop"]]
@@ -39,15 +39,28 @@ def jobs(tier):
         clients = [["start", "enq0", "enq1", "stop"], ["enq2"]]
         for k in (1, 2, 3):
             base = {"max": mx, "min": mn, "tasks": ["ret", "raise", "ret"], "clients": clients, "W": mx + 2,
-                    "props": ["exactly_once", "nodeadlock", "stopped_clean", "no_run_after_stop"], "window_at": k, "twin_prog": "progress"}
+                    "props": ["exactly_once", "nodeadlock", "stopped_clean", "no_run_after_stop"], "window_at": k, "twin_prog": "progress", "hold": [1]}
             out.append((dict(base, name="c11-stop-busy-max{0}min{1}-op{2}".format(mx, mn, k)), full))
             if thorough and k == 3:
                 out.append((dict(base, name="c11-stop-busy-max{0}min{1}-op{2}".format(mx, mn, k)), ctx))
+        # an enqueue landing while stop() is inside clear() (queue drained, workers joined)
+        clients = [["start", "enq0", "stop"], ["enq1"]]
+        base = {"max": mx, "min": mn, "tasks": ["ret", "ret"], "clients": clients, "W": mx + 2,
+                "props": ["exactly_once", "nodeadlock", "stopped_clean", "no_run_after_stop"], "window_at": 2, "hold": [1],
+                "prefix": [("rr_cond", "workers_gone_while_stopping", [0] + list(range(2, 2 + mx + 2)))]}
+        out.append((dict(base, name="c11-stop-clear-race-max{0}min{1}".format(mx, mn)), dict(full, depth=full["depth"] + 2)))
+        # stop() called while a task is blocked (its worker never consumes a stop marker), then a restart
+        busy_stop = "raw:pool_serving = False\nGATE1.set()\npool.stop()\nstop_returned = True\n"
+        clients = [["start", "enq0", busy_stop, "start", "enq1", "await1", "stop"], ["raw:GATE1.wait(None)\n", "open0"]]
+        for k in (2, 3, 4, 5):
+            base = {"max": mx, "min": mn, "tasks": ["gate0", "ret"], "clients": clients, "W": mx + 2, "gates": 2,
+                    "props": ["exactly_once", "nodeadlock", "results", "bounded", "no_run_after_stop"], "window_at": k, "twin_prog": "progress"}
+            out.append((dict(base, name="c11-restart-after-busy-stop-max{0}min{1}-op{2}".format(mx, mn, k)), dict(full, depth=full["depth"] + 2)))
         # stop() while a task is blocked: returns once another client releases it
         clients = [["start", "enq0", "stop"], ["open0"]]
         for k in (1, 2):
             base = {"max": mx, "min": mn, "tasks": ["gate0"], "clients": clients,
-                    "props": ["exactly_once", "nodeadlock", "stopped_clean", "no_run_after_stop"], "window_at": k, "twin_prog": "progress"}
+                    "props": ["exactly_once", "nodeadlock", "stopped_clean", "no_run_after_stop"], "window_at": k, "twin_prog": "progress", "hold": [1]}
             out.append((dict(base, name="c11-stop-blocked-max{0}min{1}-op{2}".format(mx, mn, k)), full))
         # idempotent start/stop and restart behaving as a fresh pool
         clients = [["start", "start", "enq0", "await0", "stop", "stop", "start", "enq1", "await1", "stop"]]
